@@ -40,7 +40,7 @@ ANCHORS = ['pfhedge.nn.functional:entropic_risk_measure',
 DECIDING = ["ERM.monotone", "ERM.cash", "ERM.convex", "ERM.bounds", "ERM.a_monotone", "ES.monotone", "ES.cash", "ES.convex", "ES.homogeneous",
             "ES.p_monotone", "ES.bounds", "QCVaR.monotone", "QCVaR.cash", "QCVaR.convex", "QCVaR.bounds", "EntropicLoss.monotone_convex",
             "IsoelasticLoss.monotone_convex"]
-REQUIRED_BRANCHES = ["n=1", "ties", "const", "multi_column"]
+REQUIRED_BRANCHES = ["n=1", "ties", "const", "multi_column", "EntropicLoss.large_exponent"]
 
 
 def eps(x):
@@ -180,10 +180,15 @@ def drv_axioms(ctx, k, rng):
                       sig=("QCVaR", "total") + base_sig, X=X.reshape(-1)[:20], lam=lam)
     # expected-utility losses: monotone decreasing and convex in the P&L
     aa = float(pick(rng, [0.5, 1.0, 2.0]))
-    Xs, Ys, Ds = (X / scale).clamp(-10, 10), (Y / scale).clamp(-10, 10), (D / scale).clamp(0, 10)
+    # exponents over the whole range the dtype represents (a |x| up to ~600 in float64, ~80 in float32) in a share of the cases
+    wide = bool(rng.random() < 0.4)
+    lim = (150.0 if dtype == F64 else 20.0) if wide else 10.0
+    if wide:
+        ctx.branch("EntropicLoss.large_exponent")
+    Xs, Ys, Ds = (X / scale * (lim / 3 if wide else 1.0)).clamp(-lim, lim), (Y / scale * (lim / 3 if wide else 1.0)).clamp(-lim, lim), (D / scale).clamp(0, 10)
     L = EntropicLoss(aa)
     lx, ly, lm_, lz = L(Xs), L(Ys), L(Xs + Ds), L(lmb * Xs + (1 - lmb) * Ys)
-    rel = (n + 64) * e * (1 + aa * 21)
+    rel = (n + 64) * e * (1 + aa * (2 * lim + 1))
     ok = bool((lm_.to(F64) <= lx.to(F64) * (1 + rel)).all()) and bool(
         (lz.to(F64) <= (lmb * lx.to(F64) + (1 - lmb) * ly.to(F64)) * (1 + 2 * rel)).all())
     ctx.seen("EntropicLoss.monotone_convex")
@@ -191,7 +196,7 @@ def drv_axioms(ctx, k, rng):
               sig=("EL",) + base_sig, trivial=triv, X=Xs, Y=Ys, D=Ds, l=lmb, a=aa, LX=lx, LY=ly, LXD=lm_, LZ=lz)
     ai = float(pick(rng, [1.0, 0.5, 0.1]))
     Li = IsoelasticLoss(ai)
-    Xp, Yp = Xs.abs() + 0.1, Ys.abs() + 0.1
+    Xp, Yp = (X / scale).clamp(-10, 10).abs() + 0.1, (Y / scale).clamp(-10, 10).abs() + 0.1
     lx, ly, lm_, lz = Li(Xp), Li(Yp), Li(Xp + Ds), Li(lmb * Xp + (1 - lmb) * Yp)
     sl = (n + 64) * e * 25
     ok = leq(lm_, lx, sl) and leq(lz, lmb * lx.to(F64) + (1 - lmb) * ly.to(F64), 2 * sl)
